@@ -213,6 +213,30 @@ func c19(r *Report) {
 	})
 
 	r.Guard("C19.R2", "the body wrapper logs exactly what each Read returned: one data frame per Read, consecutive indices, terminal exactly at EOF", func() {
+		// the body of a logged message is wrapped once, by LogRequest / LogResponse, in a wrapper
+		// allocated for that call: nothing else in the package assigns a message body (putting the
+		// bare body back loses the terminal frame of an empty body), and an existing wrapper is
+		// never taken over (its running index belongs to another stream)
+		for _, f := range w.Funcs("marbl") {
+			for _, in := range instrs(f) {
+				st, isSt := in.(*ssa.Store)
+				if !isSt || msgFieldAddr(st.Addr, "Body") == nil {
+					continue
+				}
+				owner := fnName(f) == "(*M/marbl.Stream).LogRequest" || fnName(f) == "(*M/marbl.Stream).LogResponse"
+				fresh := true
+				for _, l := range resolveAll(st.Val) {
+					if mi, isMi := l.(*ssa.MakeInterface); isMi {
+						l = mi.X
+					}
+					if a, isA := l.(*ssa.Alloc); !isA || !strings.HasSuffix(a.Type().String(), "bodyLogger") {
+						fresh = false
+					}
+				}
+				r.Touch(f)
+				r.Decide("flow", fnName(f)+": a message body is replaced by a wrapper made for this call", owner && fresh, "Body = &bodyLogger{...} in LogRequest / LogResponse", "a message body is assigned outside LogRequest / LogResponse, or with a wrapper that already existed: an empty body produces no terminal data frame, or a second stream continues the first one's indices and the first loses its frames", st.Pos())
+			}
+		}
 		// data frames are produced by reads of the body and by nothing else: a frame
 		// sent from Close, a constructor or a helper matches no Read, so indices and
 		// the terminal mark no longer describe what the consumer read
